@@ -572,10 +572,17 @@ func (f *Frame) sortSliceModel(callee *ssa.Function, argVals []ssa.Value, reach 
 			}
 		}
 	}
+	// several sortby clauses may name the same call (one per property that relies on the order): the first gives
+	// the assumed order after the call, each one gets its own obligations
 	var clause *Clause
+	var moreClauses []*Clause
 	for _, c := range e.unit.SortBy {
 		if c.Loop == k && k > 0 {
-			clause = c
+			if clause == nil {
+				clause = c
+			} else {
+				moreClauses = append(moreClauses, c)
+			}
 		}
 	}
 	if clause == nil || mc == nil {
@@ -618,6 +625,17 @@ func (f *Frame) sortSliceModel(callee *ssa.Function, argVals []ssa.Value, reach 
 		_ = o
 		// the closure must not panic for in-range indices
 		e.oblige("sortby", fmt.Sprintf("%s#sortby[%d.%s].total", e.unit.Key(), k, lab), lab, r0, out.reach, clause.Line)
+		for _, mcl := range moreClauses {
+			ml := mcl.Label
+			if ml == "" {
+				ml = fmt.Sprintf("s%d", k)
+			}
+			evm := specEnv(ci, cj, st)
+			specm := evm.evalBool(mcl.Expr)
+			f.reportEnvErrs(evm, mcl)
+			e.oblige("sortby", fmt.Sprintf("%s#sortby[%d.%s].less", e.unit.Key(), k, ml), ml, out.reach, fmt.Sprintf("(= %s %s)", out.results[0], specm), mcl.Line)
+			e.oblige("sortby", fmt.Sprintf("%s#sortby[%d.%s].total", e.unit.Key(), k, ml), ml, r0, out.reach, mcl.Line)
+		}
 	}
 	// (b) sorted by the expression
 	qa, qb := "|q.sorta|", "|q.sortb|"
